@@ -21,7 +21,7 @@ from ..fstree import materialise, read_tree
 
 ID = "C19"
 MODULE = "mc.checks.c19"
-IDS = ["MIT", "MIT+", "GPL-2.0+", "Classpath-exception-2.0", "LicenseRef-x", "Nope"]
+IDS = ["MIT", "MIT+", "GPL-2.0+", "Classpath-exception-2.0", "LicenseRef-x.1", "Nope"]
 FAILS = ["http404", "http500", "urlerror", "status204", "reset", "notutf8"]
 SENTINEL = "pre-existing sentinel content\n"
 H = "# SPDX-FileCopyrightText: 2020 Jane\n"
@@ -58,7 +58,7 @@ def cases(tier, seed):
                         kinds = FAILS if tier == "thorough" or k <= 1 else FAILS[:2]
                         for ks in itertools.product(kinds, repeat=k):
                             yield {"k": "req", "req": list(req), "state": state, "assign": dict(zip(failing, ks))}
-    for req in (["MIT"], ["GPL-2.0+", "LicenseRef-x"]):
+    for req in (["MIT"], ["GPL-2.0+", "LicenseRef-x.1"]):
         for cwd in ("root", "subdir", "licenses"):
             for vcs in ("none", "git"):
                 for state in ("absent", "empty", "target-present"):
@@ -69,14 +69,14 @@ def cases(tier, seed):
                     "source-existing-target", "all", "all-with-failure", "all-nothing-missing", "all-plus-id", "no-arguments"):
         for fail in (None, "http500"):
             yield {"k": "opt", "variant": variant, "fail": fail}
-    cmds = [["MIT"], ["MIT+"], ["GPL-2.0+"], ["LicenseRef-x"], ["MIT", "Classpath-exception-2.0"], ["--all"]]
+    cmds = [["MIT"], ["MIT+"], ["GPL-2.0+"], ["LicenseRef-x.1"], ["MIT", "Classpath-exception-2.0"], ["--all"]]
     for a, b in itertools.product(range(len(cmds)), repeat=2):
         for fail_first in (None, "reset"):
             yield {"k": "hist", "a": cmds[a], "b": cmds[b], "fail_first": fail_first}
 
 
 def base_tree(state, req_ids):
-    rec = {"src/a.py": H + "# SPDX-License-Identifier: MIT AND GPL-2.0+ AND LicenseRef-x\n", "src/sub/b.py": H + "# SPDX-License-Identifier: 0BSD\n",
+    rec = {"src/a.py": H + "# SPDX-License-Identifier: MIT AND GPL-2.0+ AND LicenseRef-x.1\n", "src/sub/b.py": H + "# SPDX-License-Identifier: 0BSD\n",
            "LICENSES_note.txt": "not the licences directory\n"}
     if state == "empty":
         rec["LICENSES"] = {"dir": True}
@@ -206,7 +206,7 @@ def ev_opt(c) -> R:
     rec = base_tree("absent", [])
     v = c["variant"]
     src_dir = base / "srcs"
-    materialise(src_dir, {"LicenseRef-x.txt": "custom licence text\n", "other.txt": "other\n"})
+    materialise(src_dir, {"LicenseRef-x.1.txt": "custom licence text\n", "other.txt": "other\n"})
     argv, expect_new, fail, req_net = None, {}, False, []
     assign = {}
     if v == "output-new":
@@ -223,25 +223,25 @@ def ev_opt(c) -> R:
         argv = ["download", "-o", str(root / "COPY.txt"), "MIT", "0BSD"]
         fail = True
     elif v == "source-file":
-        argv = ["download", "--source", str(src_dir / "LicenseRef-x.txt"), "LicenseRef-x"]
-        expect_new = {"LICENSES/LicenseRef-x.txt": b"custom licence text\n"}
+        argv = ["download", "--source", str(src_dir / "LicenseRef-x.1.txt"), "LicenseRef-x.1"]
+        expect_new = {"LICENSES/LicenseRef-x.1.txt": b"custom licence text\n"}
     elif v == "source-dir":
-        argv = ["download", "--source", str(src_dir), "LicenseRef-x", "MIT"]
-        expect_new = {"LICENSES/LicenseRef-x.txt": b"custom licence text\n", "LICENSES/MIT.txt": b"text of MIT\n"}
+        argv = ["download", "--source", str(src_dir), "LicenseRef-x.1", "MIT"]
+        expect_new = {"LICENSES/LicenseRef-x.1.txt": b"custom licence text\n", "LICENSES/MIT.txt": b"text of MIT\n"}
         req_net = ["MIT"]
     elif v == "source-missing":
-        argv = ["download", "--source", str(src_dir / "nope.txt"), "LicenseRef-x"]
+        argv = ["download", "--source", str(src_dir / "nope.txt"), "LicenseRef-x.1"]
         fail = True
     elif v == "source-dir-missing-file":
         argv = ["download", "--source", str(src_dir), "LicenseRef-y"]
         fail = True
     elif v == "source-existing-target":
-        rec["LICENSES/LicenseRef-x.txt"] = SENTINEL
-        argv = ["download", "--source", str(src_dir), "LicenseRef-x"]
+        rec["LICENSES/LicenseRef-x.1.txt"] = SENTINEL
+        argv = ["download", "--source", str(src_dir), "LicenseRef-x.1"]
         fail = True
     elif v in ("all", "all-with-failure"):
         argv = ["download", "--all"]
-        expect_new = {"LICENSES/MIT.txt": b"text of MIT\n", "LICENSES/GPL-2.0.txt": b"text of GPL-2.0\n", "LICENSES/LicenseRef-x.txt": b"",
+        expect_new = {"LICENSES/MIT.txt": b"text of MIT\n", "LICENSES/GPL-2.0.txt": b"text of GPL-2.0\n", "LICENSES/LicenseRef-x.1.txt": b"",
                       "LICENSES/0BSD.txt": b"text of 0BSD\n"}
         req_net = ["MIT", "GPL-2.0", "0BSD"]
         if v == "all-with-failure":
